@@ -38,11 +38,28 @@ fn render_on(sess: &jr::Session, code: &str, max_stack: usize) -> String {
 }
 /// `max_stack` 0 = the thread's own default limit (200 frames counted from depth zero, as a one-shot run has it)
 fn render(code: &str, max_stack: usize) -> String {
-	let sess = jr::new_session(&Opts::default());
+	let sess = jr::new_session(&session_opts());
 	render_on(&sess, code, max_stack)
 }
 
+/// in-memory files every session can import: one that evaluates, two whose own body fails, one that fails lazily
+fn session_opts() -> Opts {
+	Opts {
+		files: vec![
+			("ok.libsonnet".to_owned(), b"{ lib: 1, items: [1, 2] }".to_vec()),
+			("failing.libsonnet".to_owned(), b"local n = std.extVar('missing_variable'); { n: n }".to_vec()),
+			("asserting.libsonnet".to_owned(), b"assert 1 > 2 : 'library invariant'; { a: 1 }".to_vec()),
+			("lazy.libsonnet".to_owned(), b"{ a: error 'lazy failure', b: 1 }".to_vec()),
+		],
+		..Opts::default()
+	}
+}
+
 const HISTORY: &[&str] = &[
+	"import 'failing.libsonnet'",
+	"import 'asserting.libsonnet'",
+	"(import 'lazy.libsonnet').a",
+	"import 'ok.libsonnet'",
 	"1 + 1",
 	"error 'earlier failure'",
 	"local f(x) = f(x + 1) + 1; f(0)",
@@ -111,7 +128,20 @@ fn distinct<'a>(src: &mut Src, cands: &[&'a str], n: usize) -> Vec<&'a str> {
 
 pub fn gen_program(src: &mut Src) -> (String, Vec<String>) {
 	let mut classes = vec![];
-	let code = match src.below(13) {
+	let code = match src.below(14) {
+		13 => {
+			// imports of the session's files: the same file may have failed (or succeeded) earlier in the history
+			classes.push("imports".to_owned());
+			(*src.pick(&[
+				"import 'failing.libsonnet'",
+				"[(import 'ok.libsonnet').lib, import 'failing.libsonnet']",
+				"import 'asserting.libsonnet'",
+				"{ a: (import 'ok.libsonnet').items, b: (import 'lazy.libsonnet').b }",
+				"(import 'lazy.libsonnet').a",
+				"local l = import 'asserting.libsonnet'; l.a",
+			]))
+			.to_owned()
+		}
 		12 => {
 			// recursion just below the frame limit (200): whether it fits must not depend on earlier stack-limit hits
 			classes.push("near-limit".to_owned());
@@ -251,7 +281,7 @@ pub fn check(src: &mut Src, with_cli: bool) -> CaseOut {
 	let c = code.clone();
 	let h = hist.clone();
 	let twice = on_fresh_thread(3, 17, move || {
-		let sess = jr::new_session(&Opts::default());
+		let sess = jr::new_session(&session_opts());
 		for p in &h {
 			let _ = render_on(&sess, p, ms);
 		}
@@ -299,7 +329,7 @@ pub fn run(run: &Run) {
 		let k = counter.fetch_add(1, std::sync::atomic::Ordering::SeqCst);
 		check(src, k % 6 == 0)
 	});
-	for c in ["suggestion-tie", "multi-error", "big-object", "history-with-failure", "cli", "stack-limit", "near-limit"] {
+	for c in ["suggestion-tie", "multi-error", "big-object", "history-with-failure", "cli", "stack-limit", "near-limit", "imports"] {
 		run.require_class(c, 50);
 	}
 	let _ = HashMap::<u8, u8>::new();
